@@ -92,6 +92,20 @@ Theorem c06_dslice_whole : forall (l : list byte), dslice (dat_of_list l) 0 (zle
 Proof. exact dslice_whole. Qed.
 Print Assumptions c06_dslice_whole.
 
+(* closed forms used by the check for production-size shard files (too big to build as
+   lists): byte o of data shard i, and the shard file length *)
+Theorem c06_shard_byte : forall dat L S buf D i o,
+  sizes_ok L S buf -> 0 <= D -> 0 <= i < 10 -> 0 <= o < zlen (data_shard dat L S buf D i) ->
+  znth (data_shard dat L S buf D i) o 0%N = shard_byte dat L S D i o.
+Proof. exact shard_byte_correct. Qed.
+Print Assumptions c06_shard_byte.
+
+Theorem c06_shard_len : forall dat L S buf D i,
+  sizes_ok L S buf -> 0 <= D -> 0 <= i < 10 ->
+  zlen (data_shard dat L S buf D i) = shard_len L S D.
+Proof. exact shard_len_correct. Qed.
+Print Assumptions c06_shard_len.
+
 (* non-vacuity, at the sizes where the unrepaired code went wrong:
    a 995-byte .dat with large=100 small=10 (shard size 100: only small rows),
    read of 8 bytes at offset 0 through the production path; a .dat of exactly one
@@ -107,9 +121,88 @@ Example c06_example :
   (let present := [true; false; true; true; false; true; true; true; true; true; false; true; true; false] in
    length present = 14%nat /\ count_lost present <= 4 /\
    let len := zlen (znth (all_shards (fun _ => [0; 0; 0; 0]%N) (dat_of_list (lcg_bytes 437 3)) 40 10 10 437) 0 []) in
-   len = 50 /\ len < 1048576).
-Proof.
-  split.
-  - split; [reflexivity|]. split; [exists 1|exists 10]; split; reflexivity.
-  - vm_compute. repeat split; reflexivity || (intro; discriminate).
-Qed.
+   len = 50 /\ len < 1048576) /\
+  (let l := lcg_bytes 650 5 in
+   shard_len 40 10 650 = 70 /\
+   map (shard_byte (dat_of_list l) 40 10 650 3) (zrange 0 70) = data_shard (dat_of_list l) 40 10 10 650 3).
+Proof. exact c06_example_holds. Qed.
+Print Assumptions c06_example.
+
+(* ===== decode + mount (audit item 1) ===== *)
+(* ec.decode (VolumeEcShardsToVolume: FindDatFileSize, WriteDatFile, WriteIdxFileFromEcIndex)
+   followed by the mount of the decoded volume (Volume.load with CheckAndFixVolumeDataIntegrity),
+   at the record level of C04's volume model (model/Compaction.v); model/ECVolume.v.
+   [c_exec vt cinit h] = the volume (with its .idx) after the history h of writes and deletes,
+   [mounted s] = the decoded and mounted volume (None: cannot be mounted), [read_of v now id] =
+   what a reader of id gets.  The byte level below it (WriteDatFile gives the first datSize bytes
+   of the encoded .dat) is c06_decode; it needs the size FindDatFileSize computes to have as many
+   large block rows as the encoded .dat ([fewer_large_rows L s = false]).  The .ecj is empty. *)
+From SW Require Import model.Volume model.Compaction model.ECVolume proof.ECVolumeProofs.
+Local Open Scope N_scope.
+
+(* FULL statement "the decoded volume serves the exact original volume" is false: finding 0
+   (witness Write(1,"aaa"), Write(2,"bbb"), Write(1,"cccc"): the key-sorted .idx makes the
+   integrity check truncate the .dat behind the record of key 2; key 1 is lost) *)
+Theorem c06_decode_mount_refuted :
+  exists h id now, no_pad h = true /\ has_empty h = false /\
+    read_mounted (mounted (c_exec (0, 0) cinit h)) now id <> read_of (cv (c_exec (0, 0) cinit h)) now id.
+Proof. exact decode_mount_refuted. Qed.
+Print Assumptions c06_decode_mount_refuted.
+
+(* finding 1: nothing live (Write(1,"aaa"), Delete(1)): FindDatFileSize = 0, the decoded .dat has
+   no super block, the volume cannot be mounted *)
+Theorem c06_decode_unmountable :
+  exists h, no_pad h = true /\ has_empty h = false /\
+    dat_size (c_exec (0, 0) cinit h) = 0 /\ mounted (c_exec (0, 0) cinit h) = None /\
+    decode_trigger 1073741824 (c_exec (0, 0) cinit h) = Some 1.
+Proof. exact decode_unmountable. Qed.
+Print Assumptions c06_decode_unmountable.
+
+(* finding 2 (block sizes 40/10): the live part (344 bytes) has fewer large rows than the
+   encoded .dat (480 bytes); what WriteDatFile then produces is the byte-level model's business
+   (EC.write_dat on the shards of the 480-byte file with datSize 344), not a prefix *)
+Theorem c06_decode_fewer_rows :
+  exists h, no_pad h = true /\ has_empty h = false /\
+    dat_end (cv (c_exec (0, 0) cinit h)) = 480 /\ dat_size (c_exec (0, 0) cinit h) = 344 /\
+    large_rows 40 480 = 1%Z /\ large_rows 40 344 = 0%Z /\
+    decode_trigger 40 (c_exec (0, 0) cinit h) = Some 2.
+Proof. exact decode_fewer_rows. Qed.
+Print Assumptions c06_decode_fewer_rows.
+
+(* PARTIAL: every history of writes (non-empty payloads; an empty payload does not survive ANY
+   reload of a volume, C04 finding 0) and deletes, any volume TTL, any large block size: outside
+   the three triggers the decoded volume is mounted, its .dat has the size FindDatFileSize
+   computed, it is writable, and EVERY id reads exactly as before the encoding *)
+Theorem c06_decode_mount_partial : forall vt (L : Z) h now id,
+  no_pad h = true -> has_empty h = false ->
+  no_live_entry (c_exec vt cinit h) = false ->
+  fewer_large_rows L (c_exec vt cinit h) = false ->
+  sorted_idx_truncates (c_exec vt cinit h) = false ->
+  exists m, mounted (c_exec vt cinit h) = Some m /\
+            dat_end m = dat_size (c_exec vt cinit h) /\
+            no_write_or_delete m = false /\
+            read_of m now id = read_of (cv (c_exec vt cinit h)) now id.
+Proof. exact decode_mount_partial. Qed.
+Print Assumptions c06_decode_mount_partial.
+
+(* outside finding 0 the integrity check of the mount changes nothing *)
+Theorem c06_decode_mount_check_noop : forall vt h,
+  no_pad h = true ->
+  sorted_idx_truncates (c_exec vt cinit h) = false ->
+  check_noop (check_files (decoded_files (c_exec vt cinit h))) = true.
+Proof. exact decode_mount_check_noop. Qed.
+Print Assumptions c06_decode_mount_check_noop.
+
+(* non-vacuity: Write(1,"aaa"), Write(2,"bbb"), Delete(1), Write(2,"cccc") (the LARGEST key is
+   overwritten): no trigger, ids 1..3 read the same, id 2 is served *)
+Example c06_decode_mount_example :
+  no_pad w_clean = true /\ has_empty w_clean = false /\
+  decode_trigger 1073741824 (c_exec (0, 0) cinit w_clean) = None /\
+  no_live_entry (c_exec (0, 0) cinit w_clean) = false /\
+  fewer_large_rows 1073741824 (c_exec (0, 0) cinit w_clean) = false /\
+  sorted_idx_truncates (c_exec (0, 0) cinit w_clean) = false /\
+  (forall id, In id [1; 2; 3] ->
+     read_mounted (mounted (c_exec (0, 0) cinit w_clean)) 10 id = read_of (cv (c_exec (0, 0) cinit w_clean)) 10 id) /\
+  read_of (cv (c_exec (0, 0) cinit w_clean)) 10 2 <> None.
+Proof. exact decode_mount_example. Qed.
+Print Assumptions c06_decode_mount_example.
